@@ -4,6 +4,8 @@
 // the property on the implementation's own output (finite values, round trip within 1e-9 degrees,
 // equal-area / conformal / equidistant character by central differences, Web-Mercator range) and
 // writes `FAIL <id> SPEC ...` lines for violations.  A stratified subsample of the cases is flagged
+// Graded class (graded.go): points at graded offsets (1 .. 1e-13 degrees) from the special points of
+// every projection, radii 1, WGS84, 1e-3 and 1e3.
 // History class: one projection VALUE is configured as A, used, reconfigured (every non-empty subset
 // of its setters, both orders) towards B and must then be bit-identical to a NEW value configured
 // directly (Forward/Reverse are functions of the configuration only) and satisfy the same statement.
@@ -402,6 +404,7 @@ func main() {
 		perStratum = 1
 	}
 	flagged := map[string]int{}
+	gradedCount := map[string]int{}
 	classes := map[string]int{}
 	fails := 0
 	curKind := ""
@@ -417,14 +420,19 @@ func main() {
 		curKind = kind
 		var pr projection
 		history := ""
-		if kind != "wm" && r.Chance(1, 6) {
+		graded, gradedK := "", 0
+		var p geom.XY
+		var class string
+		if r.Chance(1, 5) { // graded offsets from the special points (graded.go)
+			pr, p, gradedK, graded = gradedCase(kind, gradedCount[kind], r)
+			gradedCount[kind]++
+			class = "graded"
+		} else if kind != "wm" && r.Chance(1, 6) {
 			pr, history = withHistory(kind, r)
 		} else {
 			pr = makeProjection(kind, r)
 		}
-		var p geom.XY
-		var class string
-		for {
+		for graded == "" {
 			class = classNames[r.Intn(len(classNames))]
 			if r.Chance(1, 2) {
 				class = []string{"grat", "rand"}[r.Intn(2)]
@@ -454,7 +462,20 @@ func main() {
 		}
 		g := 0
 		key := kind + "/" + class
-		if flagged[key] < perStratum && finite(f) && finite(back) {
+		quota := perStratum
+		if graded != "" {
+			// one stratum per band of decades (1..1e-4, 1e-5..1e-9, 1e-10..1e-13); taken at random
+			// so that radius, direction and special point vary between runs of different seeds
+			key = fmt.Sprintf("%s/%d", key, gradedBucket(gradedK))
+			if strings.HasPrefix(graded, "graded[centre ") { // the removable singularity of the azimuthal inverses
+				key += "/centre"
+			}
+			quota = (perStratum + 1) / 2
+			if !r.Chance(1, 8) {
+				quota = 0
+			}
+		}
+		if flagged[key] < quota && finite(f) && finite(back) {
 			flagged[key]++
 			g = 1
 		}
@@ -467,6 +488,9 @@ func main() {
 		desc := fmt.Sprintf("%s(%s) lonlat=(%v,%v) fwd=(%v,%v) rev=(%v,%v)", kind, strings.Join(cfgr, ","), p.X, p.Y, f.X, f.Y, back.X, back.Y)
 		if history != "" {
 			desc += " after [" + history + "]"
+		}
+		if graded != "" {
+			desc += " " + graded
 		}
 		fmt.Fprintf(w, "%d\t%s\t%s\t%d\t%s\t%s\t%s\t%s\t%s\t%s\t%s\t%s\n", i, kind, class, g,
 			strings.Join(cfgs, ","), hx(p.X), hx(p.Y), hx(f.X), hx(f.Y), hx(back.X), hx(back.Y), desc)
